@@ -342,6 +342,8 @@ class SeqGen:
             mods, secs = mods + ["zz"], secs + [10]
         else:
             broke = False
+        if broke and s:
+            self.emit("stats " + hx(s.name))       # a rejected control message must change nothing
         self.emit("ssend %d %s %s %s %s %d %d" % (k, subf, jl(hx(a) for a in acks), jl(hx(a) for a in mods), jl(str(x) for x in secs), mm, mb))
         if broke:
             if s:
@@ -351,6 +353,8 @@ class SeqGen:
             gone = set(acks)
             s.out = [(a, d) for (a, d) in s.out if str(a) not in gone]
         self.emit("sread %d" % k)
+        if broke and s:
+            self.emit("stats " + hx(s.name))
 
     def op_sread(self):
         if self.streams:
